@@ -5,6 +5,9 @@ HERE = os.path.dirname(os.path.abspath(__file__))
 TB = ("Lean 4.33.0 kernel (axioms: propext, Classical.choice, Quot.sound only; audited per theorem); "
       "hand-written Lean model tied to the code by an in-process differential correspondence run (go build -overlay harness) on every run; ")
 CHECKS = {
+ "C14": dict(text="Lean theorems guard_refuses_outside_repo, guard_protects_dirty (a write without --force touches no file with a git status entry, modified or deleted/moved), refusal_leaves_disk, dryrun_noop, dirty_untouched (disk model: deletes then writes), findRepo_spec/findRepo_none; guard_never_fired_old (the repaired defect: relative keys vs absolute paths are disjoint for every input). Tie: the full state matrix as real git repositories, real `regal fix` binary, tree snapshots before/after; exit status vs the guard model.",
+             note=TB + "go-git status semantics, os file operations; ignored files are outside the statement", ref="5/C14",
+             technique="Lean 4 proof over the decision/disk model + exhaustive scenario correspondence on real git repositories"),
  "C10": dict(text="Lean theorems exit_code_spec (total case analysis over any list of levels), exit_monotone, records_perm_junit (grouping by a de-duplicated sorted file list presents every violation exactly once, any sort function) and records_perm_linear; junit_old_witness (the repaired n^2 defect). Tie: every real reporter renders random reports and the output is parsed back (JSON, XML, SARIF, line formats) into records compared with the model and with the report; the real `regal lint` binary's exit status on generated workspaces for both fail levels and failing runs.",
              note=TB + "encoders/escaping are trusted libraries sampled by parse-back; pretty level column needs NO_COLOR", ref="5/C10",
              technique="Lean 4 proof (case analysis; partition-by-key permutation) + differential correspondence with parse-back"),
